@@ -849,8 +849,110 @@ def r26(ctx, R, rule='R2.6', premature=False):
     R.count(rule, n_sites, 1)
 
 
+def r27(ctx, R):
+    """A candidate names, under "allocations", exactly the providers it
+    takes resources from: the per-candidate mapping starts empty and gets
+    its keys from the candidate's resource requests only.  (A provider put
+    there from anywhere else - the mappings of a resourceless group - has no
+    resources, and the PUT schema refuses an empty "resources".)"""
+    prog = ctx.prog
+    f = prog.func(HC + ':_transform_allocation_requests_dict')
+    deps = C.Deps(f)
+    # the mapping published under 'allocations'
+    pub = []
+    for n in own_nodes(f.node):
+        if isinstance(n, ast.Call) and src(n.func) == 'dict':
+            v = C.kwarg(n, 'allocations')
+            if v is not None:
+                pub.append(v)
+        if isinstance(n, ast.Dict):
+            for k, v in zip(n.keys, n.values):
+                if isinstance(k, ast.Constant) and k.value == 'allocations':
+                    pub.append(v)
+        if isinstance(n, ast.Assign):
+            for t in n.targets:
+                if isinstance(t, ast.Subscript) and isinstance(
+                        t.slice, ast.Constant) and \
+                        t.slice.value == 'allocations':
+                    pub.append(n.value)
+    why = [src(p)[:80] for p in pub]
+    rr_loops = [lp for lp in own_nodes(f.node) if isinstance(lp, ast.For)
+                and src(lp.iter).endswith('.resource_requests')]
+    rr_vars = {x.id for lp in rr_loops for x in ast.walk(lp.target)
+               if isinstance(x, ast.Name)}
+
+    def from_request(e):
+        return deps.reaches(e, lambda x: isinstance(x, ast.Name)
+                            and x.id in rr_vars)
+
+    def keys_ok(e, depth=0):
+        """The keys of mapping e all come from resource requests."""
+        if depth > 3:
+            return False
+        if isinstance(e, ast.DictComp) and len(e.generators) == 1:
+            g_ = e.generators[0]
+            if src(g_.iter).endswith('.resource_requests'):
+                return True
+            # {k: f(v) for k, v in other.items()}: the keys of `other`
+            it = g_.iter
+            base = None
+            if isinstance(it, ast.Call) and isinstance(
+                    it.func, ast.Attribute) and it.func.attr == 'items' \
+                    and not it.args and isinstance(g_.target, ast.Tuple) \
+                    and isinstance(g_.target.elts[0], ast.Name) and \
+                    isinstance(e.key, ast.Name) and e.key.id == \
+                    g_.target.elts[0].id:
+                base = it.func.value
+            return base is not None and keys_ok(base, depth + 1)
+        if not isinstance(e, ast.Name):
+            why.append('published: %s' % src(e)[:60])
+            return False
+        var = e.id
+        inits = [a for a in own_nodes(f.node) if isinstance(a, ast.Assign)
+                 and any(isinstance(t, ast.Name) and t.id == var
+                         for t in a.targets)]
+        good = bool(inits)
+        nkeys = 0
+        for a in inits:
+            v = a.value
+            empty = (isinstance(v, ast.Dict) and not v.keys) or (
+                isinstance(v, ast.Call) and src(v.func).split('.')[-1] in (
+                    'dict', 'defaultdict', 'OrderedDict') and not any(
+                        isinstance(x, (ast.Dict, ast.DictComp, ast.ListComp,
+                                       ast.GeneratorExp)) for x in v.args))
+            if not empty and not (isinstance(v, ast.DictComp) and keys_ok(
+                    v, depth + 1)):
+                good = False
+                why.append('starts as %s' % src(v)[:70])
+            if isinstance(v, ast.DictComp):
+                nkeys += 1
+        for n in own_nodes(f.node):
+            if isinstance(n, ast.Subscript) and isinstance(
+                    n.value, ast.Name) and n.value.id == var:
+                nkeys += 1
+                if not from_request(n.slice):
+                    good = False
+                    why.append('key %s' % src(n.slice))
+            if isinstance(n, ast.Call) and isinstance(
+                    n.func, ast.Attribute) and isinstance(
+                        n.func.value, ast.Name) and n.func.value.id == var \
+                    and n.func.attr in ('setdefault', 'update') and n.args:
+                nkeys += 1
+                if not from_request(n.args[0]):
+                    good = False
+                    why.append('%s(%s)' % (n.func.attr, src(n.args[0])[:40]))
+        return good and nkeys > 0
+    ok = len(pub) == 1 and keys_ok(pub[0]) and bool(rr_loops)
+    R.ob('R2.7', 'allocations-keys-from-resource-requests', ok,
+         'the providers named under "allocations" of a candidate are those '
+         'of its resource requests (the mapping starts empty, every key '
+         'comes from a resource request)', why[:4], func=f)
+    R.count('R2.7', 1, 1)
+
+
 def run(ctx, R):
     r26(ctx, R)
+    r27(ctx, R)
     r21(ctx, R)
     r21b(ctx, R)
     c01.r13(ctx, R)
